@@ -80,6 +80,7 @@ def truth(it, v):
     if isinstance(v, SReal):
         return v.z != 0
     if isinstance(v, SStr):
+        it.fact(slen(v.z) >= 0)
         return slen(v.z) != 0
     if isinstance(v, SList):
         return v.n > 0
@@ -177,6 +178,12 @@ def binop(it, op, a, b):
     if op == '+' and is_strlike(a) and is_strlike(b):
         r = SStr(str_cat(strz(it, a), strz(it, b)))
         it.fact(slen(r.z) == slen(strz(it, a)) + slen(strz(it, b)))
+        from .builtins import path_sepfree
+        for x in (a, b):
+            if isinstance(x, str) and '/' not in x and '\\' not in x and x not in ('..', '.'):
+                it.fact(path_sepfree(strz(it, x)))
+        it.fact(z3.Implies(z3.And(path_sepfree(strz(it, a)), path_sepfree(strz(it, b))),
+                           path_sepfree(r.z)))
         return r
     if op == '*' and is_strlike(a) and is_numeric(b):
         return it.fresh_str('rep')
